@@ -20,7 +20,7 @@ func thru() {
 	idx := make([]int, 3)
 	rad := []int{len(gaps), len(gaps), len(gaps)}
 	for {
-		for variant := 0; variant < 4; variant++ {
+		for variant := 0; variant < 5; variant++ {
 			ctx.Eval()
 			ctx.Add("thru_histories", 1)
 			drv := testdrv.New("thru")
@@ -43,6 +43,10 @@ func thru() {
 						out.Send([]byte{m[1] + 64, m[2]})
 					}
 				}
+				if variant == 4 && len(m) == 3 && m[0]&0xF0 == 0x90 && m[1] < 96 {
+					// a chain: the answer is answered again, twice (keys k, k+32, k+64, k+96)
+					out.Send([]byte{m[0], m[1] + 32, m[2]})
+				}
 			})
 			if err != nil || out.Open() != nil {
 				ctx.Guard(false, "thru: cannot set up the loopback: %v", err)
@@ -63,6 +67,11 @@ func thru() {
 					msg = []byte{0xB0, 7, 99} // no answer for this one
 				}
 				want = append(want, ls.Delivered{Msg: msg, TS: acc})
+				if i < 2 && variant == 4 {
+					for step := byte(32); step <= 96; step += 32 {
+						want = append(want, ls.Delivered{Msg: []byte{msg[0], key + step, 100}, TS: acc})
+					}
+				}
 				if i < 2 {
 					switch variant {
 					case 0, 2, 3:
@@ -180,4 +189,40 @@ func refused() {
 		}
 	}
 	rec()
+}
+
+// fractions: many waits that are not whole milliseconds between two Sends. The
+// driver's clock counts milliseconds; whatever it does with the fractions, a
+// time stamp is never further from the time that really passed than one
+// millisecond per Send so far (each Send may drop its own fraction).
+func fractions() {
+	for _, step := range []time.Duration{250 * time.Microsecond, 600 * time.Microsecond, 999 * time.Microsecond, 1500 * time.Microsecond, 20833 * time.Microsecond} {
+		for _, perGap := range []int{1, 4, 40} {
+			ctx.Eval()
+			ctx.Add("fraction_histories", 1)
+			l := ls.NewLoop(ls.All(buf))
+			var elapsed time.Duration
+			bad := ""
+			for i := 0; i < 6 && bad == ""; i++ {
+				for k := 0; k < perGap; k++ {
+					l.Drv.Sleep(step)
+					elapsed += step
+				}
+				l.Send([]byte{0x90, byte(i), 1})
+				got := l.Take()
+				if len(got) != 1 {
+					bad = fmt.Sprintf("send %d: %d deliveries", i, len(got))
+					break
+				}
+				trueMs := float64(elapsed) / float64(time.Millisecond)
+				if d := trueMs - float64(got[0].TS); d < -0.001 || d > float64(i+1)+0.001 {
+					bad = fmt.Sprintf("after %d waits of %v and %d Sends, %.3f ms have passed but the time stamp is %d", (i+1)*perGap, step, i+1, trueMs, got[0].TS)
+				}
+			}
+			if bad != "" && ctx.SigCount("sent:timestamp:fractional-waits") < 10 {
+				ctx.Violation("sent:timestamp:fractional-waits", map[string]interface{}{"kind": "fractions", "step_us": step.Microseconds(), "waits_per_gap": perGap, "what": bad})
+			}
+			ctx.NontrivialN(1)
+		}
+	}
 }
